@@ -113,6 +113,32 @@ fn check_point(base: &Base, sc: &Scenario, cx: &Cx, key: &Key, torn: bool, n: &m
             for (g, (r, _)) in got.iter().zip(reference.iter()) {
                 ensure!(ops::entry_matches(g, r), "C03/interrupted-version-listing-entry", "{g:?} vs {r:?}");
             }
+            // the same for a selection: every directory of the listing (at most three), and
+            // with one exclusion
+            let dirs: Vec<&str> = reference.iter().filter(|(e, _)| e.kind == "Dir" && e.apath != "/").map(|(e, _)| e.apath.as_str()).take(3).collect();
+            for d in dirs {
+                let l = ops::list_entries(&w.arch, &None, &Sel::Band(new_id), d, &[], 100_000);
+                ensure!(l.result.is_ok() && l.panic.is_none(), "C03/interrupted-version-listing-failed", "{}", l.describe());
+                let gp: Vec<String> = l.result.unwrap().iter().map(|e| e.apath.to_string()).collect();
+                let wp: Vec<&str> = rp.iter().copied().filter(|p| tree::under(d, p)).collect();
+                ensure!(
+                    gp.iter().map(|s| s.as_str()).eq(wp.iter().copied()),
+                    "C03/interrupted-version-subtree-listing",
+                    "listing of {d} in interrupted band {new_id}: got {gp:?}, the stitched listing restricted to it is {wp:?}"
+                );
+            }
+            if let Some(first_file) = reference.iter().find(|(e, _)| e.kind == "File") {
+                let pat = vec![first_file.0.apath.clone()];
+                let l = ops::list_entries(&w.arch, &None, &Sel::Band(new_id), "/", &pat, 100_000);
+                ensure!(l.result.is_ok() && l.panic.is_none(), "C03/interrupted-version-listing-failed", "{}", l.describe());
+                let gp: Vec<String> = l.result.unwrap().iter().map(|e| e.apath.to_string()).collect();
+                let wp: Vec<&str> = rp.iter().copied().filter(|p| *p != first_file.0.apath).collect();
+                ensure!(
+                    gp.iter().map(|s| s.as_str()).eq(wp.iter().copied()),
+                    "C03/interrupted-version-excluded-listing",
+                    "listing of interrupted band {new_id} excluding {pat:?}: got {gp:?}, want {wp:?}"
+                );
+            }
             if !nb.is_closed() {
                 if let Some(prev) = prev_last.filter(|p| pre.bands[p].head.present_nonempty()) {
                     let last_own = own.last().map(|e| e.apath.clone());
@@ -234,7 +260,7 @@ fn enumerate(tier: Tier, idx: u32, of: u32, cx: &mut Cx) -> CaseResult {
         return Ok(());
     }
     let (opts, tree) = crate::probes::many_hunks_tree(10_012);
-    let sc = Scenario { initial: tree, prefix: vec![], edits: vec![], opts };
+    let sc = Scenario { initial: tree, prefix: vec![], edits: vec![], opts, id_spread: 1 };
     let sub = cx.dir("many-hunks");
     std::fs::create_dir_all(sub.join("r")).unwrap();
     let mut cx2 = crate::engine::sub_cx(cx, sub.clone());
